@@ -4,7 +4,7 @@
 (* driven through add / build(copy) / guarded-mutator attempts / pop /       *)
 (* copies / assignments; every event carries what was observed (outcome,     *)
 (* projection of the model, structural facts read from the real model).      *)
-EXTENDS LieselBuild, TraceBatch
+EXTENDS LieselBuild, BuildStructure, TraceBatch
 
 UIn1 == <<{}, {1}, {2, 4}, {}>>
 Names1 == <<"a", "b", "", "s">>
@@ -80,5 +80,20 @@ TAssign ==
   /\ Chk("assignment_does_not_change_other_models", Ev.others_unchanged)
   /\ Step
 
-TNext == TAdd \/ TAddAgain \/ TBuild \/ TBuildEmpty \/ TMutate \/ TPop \/ TDrop \/ TCopy \/ TAssign
+\* --- one build of a model with variables and distribution nodes (random plans) --------------------------------
+TPlanBuilt ==
+  /\ IsEvent("plan_built")
+  /\ Chk("update_order_is_topological_including_evaluation_points", Topological(Ev.order, Ev.inp))
+  /\ Chk("outputs_are_exact_inverse_of_inputs_including_evaluation_points", OutputsInverse(Ev.outs, Ev.inp))
+  /\ Chk("unique_non_empty_names", NamesOK(Ev.all_names))
+  /\ Chk("every_node_of_the_model_is_frozen_in_it", Ev.frozen)
+  /\ Chk("all_nodes_of_a_variable_are_in_the_model", Ev.var_nodes_present)
+  /\ Chk("an_accepted_plan_is_acyclic", ~CyclicPlan(Ev.inp))
+  /\ UNCHANGED bvars /\ Step
+TMustReject ==
+  /\ IsEvent("must_reject")
+  /\ Chk("cyclic_or_duplicate_named_graph_is_rejected", Ev.got = Ev.expect)
+  /\ UNCHANGED bvars /\ Step
+
+TNext == TPlanBuilt \/ TMustReject \/ TAdd \/ TAddAgain \/ TBuild \/ TBuildEmpty \/ TMutate \/ TPop \/ TDrop \/ TCopy \/ TAssign
 =============================================================================
